@@ -7,6 +7,17 @@ import traceback
 _FUNC = None
 
 
+def _limit_memory():
+    """Safety net: a worker may not grow beyond VERIF_WORKER_MEM_GB (default 6) of address space; a library call that
+    tries to allocate more fails with MemoryError inside the library and is reported as a failure of that case."""
+    import resource
+    gb = float(os.environ.get("VERIF_WORKER_MEM_GB", "6"))
+    try:
+        resource.setrlimit(resource.RLIMIT_AS, (int(gb * 2 ** 30), int(gb * 2 ** 30)))
+    except (ValueError, OSError):
+        pass
+
+
 def _run_chunk(args):
     idx, items = args
     out = []
@@ -42,7 +53,7 @@ def pmap(func, items, jobs=None, chunk=None):
     _FUNC = func
     ctx = mp.get_context("fork")
     results = [None] * len(items)
-    with ctx.Pool(jobs) as pool:
+    with ctx.Pool(jobs, initializer=_limit_memory) as pool:
         for idx, out in pool.imap_unordered(_run_chunk, chunks):
             for j, (tag, val) in enumerate(out):
                 if tag == "err":
